@@ -85,6 +85,15 @@ class C12(ProgramProperty):
 
     def laws(self, case, impl):
         fails = []
+        # injective mappings are never rejected -- except remap_uri_prefixes with a string that is both key and value
+        for st, v in zip(case["steps"], impl):
+            if st["op"] in ("remap_uri", "rewire") and v is not None and not (isinstance(v, dict) and "bad" in v):
+                keys = {tuple(k) for k, _ in st["mapping"]}
+                vals = {tuple(x) for _, x in st["mapping"]}
+                transitive = st["op"] == "remap_uri" and bool(keys & vals)
+                if not (transitive and isinstance(v, dict) and v.get("e") == "transitive"):
+                    fails.append(f"{st['op']} with the injective mapping "
+                                 f"{ {uncps(k): uncps(x) for k, x in st['mapping']} } raised {v!r}")
         g = {c: Getter(case, impl, c) for c in (0, 1, 2, 3)}
         r2, r3 = g[2]("records"), g[3]("records")
         if have(r2, r3) and not is_exc(r2) and not is_exc(r3):
